@@ -53,10 +53,10 @@ ASSUMPTIONS = [
 ]
 FLOORS = {
     "quick": {"distinct_nontrivial": 32000, "multisets": 30000, "solver_calls": 650000, "verdict_error": 500000,
-              "verdict_ok": 90000, "e2e_cases": 2000, "e2e_accepted": 1500, "e2e_diagnosed": 3400,
+              "verdict_ok": 30000, "e2e_cases": 2000, "e2e_accepted": 1500, "e2e_diagnosed": 3400,
               "e2e_insitu_checked": 3200},
     "thorough": {"distinct_nontrivial": 230000, "multisets": 230000, "size5_multisets": 19000,
-                 "solver_calls": 5000000, "verdict_ok": 500000, "e2e_cases": 2000, "e2e_insitu_checked": 3200},
+                 "solver_calls": 5000000, "verdict_ok": 250000, "e2e_cases": 2000, "e2e_insitu_checked": 3200},
 }
 NSHARDS = 16
 WATCHDOG_S = {"quick": 900, "thorough": 7200}
